@@ -144,8 +144,10 @@ namespace vf::rt {
             std::string s = o.serialize();
             if (vf::child_fd() >= 0) { ssize_t r = write(vf::child_fd(), s.data(), s.size()); (void) r; }
             else std::fprintf(stderr, "FAIL %s: %s\n", oracle.c_str(), msg.c_str());
+            _exit(0);
         }
-        _exit(0);
+        // another thread is already reporting: never exit under its feet
+        for (;;) pause();
     }
 
     inline Slot& slot_for(void const* p)
